@@ -28,6 +28,7 @@ RULE = ("One evaluation = one seeded execution of two real clients (real "
         "reconnect faults. Non-trivial: both PAKE messages were delivered. "
         "Distinct: event-log digests among non-trivial runs.")
 RULE += (' Application messages include the empty string, a NUL byte and 3 kB blobs.')
+RULE += (' Codes also come with a doubled hyphen, a trailing hyphen or one word only; one relation adds a hyphen.')
 LEVEL_TEXT = ("Seeded exploration of inputs x schedules. match := NFC(codeA)=="
               "NFC(codeB) and appidA==appidB (computed independently of the "
               "code under test). match => equal verifiers, equal keys, "
